@@ -103,7 +103,7 @@ const c02Forms = 9
 type c02Case struct {
 	tol    c02Tol
 	pos    [5]int // R.II, A.II, NB, NOOA, C.NOOA
-	shape  int    // 0 single; 1 two confirmations bad first; 2 two confirmations bad second; 3 two assertions bad first; 4 two assertions bad second
+	shape  int    // 0 single; 1 two confirmations bad first; 2 two confirmations bad second; 3 two assertions bad first; 4 two assertions bad second; 5 no subject confirmation at all
 	layout int    // 0 response signed, 1 assertion(s) signed
 	form   int
 	entry  int // 0 xml, 1 post, 2 artifact (AR.II satisfying), 3 artifact (AR.II violating)
@@ -161,7 +161,7 @@ func runC02(c *core.Ctx) {
 	// shapes with several confirmations / assertions, other entry points and lexical forms: seeded sample (thorough: full cross product on a thinner lattice)
 	nextra := c.Pick(24000, 500000)
 	for i := 0; i < nextra; i++ {
-		k := c02Case{tol: c02Tols[c.Rng.Intn(len(c02Tols))], shape: c.Rng.Intn(5), layout: c.Rng.Intn(2), form: c.Rng.Intn(c02Forms), entry: c.Rng.Intn(4), nowOff: time.Duration(c.Rng.Intn(1000)) * time.Microsecond}
+		k := c02Case{tol: c02Tols[c.Rng.Intn(len(c02Tols))], shape: c.Rng.Intn(6), layout: c.Rng.Intn(2), form: c.Rng.Intn(c02Forms), entry: c.Rng.Intn(4), nowOff: time.Duration(c.Rng.Intn(1000)) * time.Microsecond}
 		for j := range k.pos {
 			k.pos[j] = c.Rng.Intn(4)
 			if c.Rng.Intn(3) == 0 {
@@ -191,6 +191,9 @@ func c02Run(c *core.Ctx, o *so.Oracle, sp *saml.ServiceProvider, s1 *fx.KeyPair,
 	rII := lowerBounded(n, k.tol.D, k.pos[0])
 	good := [4]time.Time{lowerBounded(n, k.tol.D, 2), upperBounded(n, k.tol.S, 2), lowerBounded(n, k.tol.S, 2), lowerBounded(n, k.tol.S, 2)}
 	bad := [4]time.Time{lowerBounded(n, k.tol.D, k.pos[1]), upperBounded(n, k.tol.S, k.pos[2]), lowerBounded(n, k.tol.S, k.pos[3]), lowerBounded(n, k.tol.S, k.pos[4])}
+	if k.shape == 5 {
+		k.pos[4] = 2 // there is no confirmation whose NotOnOrAfter could be violated
+	}
 	assertionOK := posOK(k.pos[1]) && posOK(k.pos[2]) && posOK(k.pos[3]) && posOK(k.pos[4])
 
 	type aspec struct {
@@ -203,6 +206,8 @@ func c02Run(c *core.Ctx, o *so.Oracle, sp *saml.ServiceProvider, s1 *fx.KeyPair,
 	switch k.shape {
 	case 0:
 		as = []aspec{{"A", bad, []time.Time{bad[3]}, assertionOK}}
+	case 5:
+		as = []aspec{{"A", bad, nil, assertionOK}}
 	case 1, 2: // two confirmations: the lattice confirmation instant goes to the first/second, the other is good
 		conf := []time.Time{bad[3], good[3]}
 		if k.shape == 2 {
@@ -221,6 +226,9 @@ func c02Run(c *core.Ctx, o *so.Oracle, sp *saml.ServiceProvider, s1 *fx.KeyPair,
 	okByTag := map[string]bool{}
 	for _, a := range as {
 		sa := o.Assertion(so.AssertionSpec{RequestID: "req-1", NameID: "tag-" + a.tag, Now: n})
+		if len(a.conf) == 0 {
+			sa.Subject.SubjectConfirmations = nil
+		}
 		if len(a.conf) == 2 {
 			sc := sa.Subject.SubjectConfirmations[0]
 			d := *sc.SubjectConfirmationData
